@@ -177,6 +177,11 @@ class _GlobSplit(Generic[AnyStr]):
             self.pattern = self.pattern[0:1]
         if flags & NEGATE:
             flags ^= NEGATE
+        # Parts never contain a separator; they are matched against single names, so no implicit `**/` prefix.
+        if flags & MATCHBASE:
+            flags ^= MATCHBASE
+        if flags & _wcparse._EXTMATCHBASE:
+            flags ^= _wcparse._EXTMATCHBASE
         self.flags = flags
         self.extend = bool(flags & EXTMATCH)
         if not self.unix:
